@@ -14,7 +14,9 @@ RULE = ('histories of 3-30 operations (asserta/assertz through the builtin, thro
         'after every operation.  Non-trivial: at least one retract answer, at least one pattern with a variable and the '
         'predicate had >= 2 facts at some point.  (b) kind dbprog: generated programs (init clause asserting 0-5 facts, a '
         'main clause of 2-9 goals over goals on dynamic facts, retract, asserta/assertz, retractall, =, calls of a helper '
-        'predicate, goals held in bound variables, unknown predicates, optionally ending in fail with a second clause) '
+        'predicate, goals held in bound variables, unknown predicates, optionally ending in fail with a second clause; half of '
+        'the programs with up to 3 control constructs - !, fail, ( A ; B ), ( C -> T ; E ), ( C -> T ), \\+ C, nested once, cuts '
+        'also inside conditions / negations and in the helper predicate) '
         'compiled by the real compiler and run by 2-3 queries; compared with the model Engine/DbProg.v: all answers of '
         'every query, the stored facts of every predicate at the end, the number of facts stored during the run.  '
         'Non-trivial (b): a goal that enumerates a predicate is followed in the same body by an update of that predicate.  '
@@ -25,7 +27,8 @@ TRUSTED_BASE = [
     'hand-written model Engine/Db.v, DbCursor.v, DbFacts.v of engine.py assert_fact/asserta/assertz/retract/retractall/clear/'
     'match_dynamic/_match_all_clauses/Answer/copy_term; tied to /repo by this differential run (not by translation)',
     'hand-written model Engine/DbProg.v of compiled clause bodies with database builtins (query() = facts first, then the compiled '
-    'function; nested for-loops = depth-first search; database, Answer identities and allocation counter threaded through the search)',
+    'function; nested for-loops = depth-first search; database, Answer identities and allocation counter threaded through the search; '
+    'control constructs in continuation style with a flag for the frame that a cut / commit leaves, as compile_body rewrites them)',
     'harness: generators, driver of the implementation (harness/props/dbcommon.py), parser of the printed observations',
     'modelled, not verified: CPython generator protocol (a generator function runs nothing until the first next())',
 ]
@@ -135,6 +138,11 @@ def distribution(cases, obs):
             for cl in c['clauses']:
                 for g in cl['body']:
                     d['prog_goals'][g[0]] = d['prog_goals'].get(g[0], 0) + 1
+                for g in D.flat_goals(cl['body']):
+                    if g[0] in ('cut', 'fail'):
+                        d['prog_goals']['nested:' + g[0]] = d['prog_goals'].get('nested:' + g[0], 0) + 1
+            if any(g[0] in ('cut', 'fail', 'or', 'if', 'ifthen', 'not') for cl in c['clauses'] for g in cl['body']):
+                d['kinds']['dbprog with control'] = d['kinds'].get('dbprog with control', 0) + 1
             e = o['end'] if isinstance(o, dict) else 'other'
             d['ended'][e] = d['ended'].get(e, 0) + 1
             continue
